@@ -53,6 +53,7 @@ def rules(ctx):
     C13.c131(ctx)   # the manifest reader delivers an edit only at its separator (a torn tail is dropped whole)
     C13.c135(ctx)   # an edit is replayed remove-then-add
     C13.c136(ctx)   # a file that may end in a torn edit is rewritten before anything is appended to it
+    C13.c138(ctx)   # a handle whose write failed appends nothing more behind the torn edit
 
 
 # ---------------------------------------------------------------------------------------------------
